@@ -556,6 +556,10 @@ func (s *State) evalBuiltin(node *ast.Builtin) object.Object {
 	selfEval := (t == token.PRINT || t == token.PRINTLN || t == token.LOG || t == token.ERROR)
 	if minV > 0 && !selfEval {
 		val = s.evalInternal(node.Parameters[0])
+		if rv, isControl := val.(object.ReturnValue); isControl {
+			// catch(break), len(continue): a control statement isn't a value.
+			return s.Errorf("unexpected %s as argument of %s", rv.ControlType.String(), node.Literal())
+		}
 		rt = val.Type()
 		if rt == object.ERROR && t != token.LOG && t != token.CATCH { // log can log (and thus catch) errors.
 			return val
